@@ -6,7 +6,7 @@
 -/
 import Std.Tactic.BVDecide
 import NakenVerif.Msp430.DisLocal
-import NakenVerif.Msp430.Arch
+import NakenVerif.Msp430.AsmProps
 set_option linter.unusedSimpArgs false
 set_option linter.unusedVariables false
 namespace NakenVerif.Msp430
